@@ -222,6 +222,11 @@ func (w *World) Verify(c *Contract) (res *TargetResult) {
 		t := x.evalClause(nil, r, heap, entry, args, nil, nil)
 		x.g.Assume(t)
 	}
+	for _, r := range c.Assumed {
+		t := x.evalClause(nil, r, heap, entry, args, nil, nil)
+		x.g.Assume(t)
+		x.note("trusted assumption of %s: %s", c.FuncID, r.Text)
+	}
 	f := x.newFrame(fn, c, args, false)
 	f.keepCtx = c.SplitReturns
 	x.pathMode = c.SplitReturns
